@@ -11,7 +11,7 @@ func init() {
 			{Pkg: "codec", Harness: "faultdecode", Config: "somap", Weight: 1, Note: "SerializableOrderedMap.Decode"},
 		},
 		QuickS: 40, ThoroughS: 900,
-		Rule: "inputs are faulted stored data: each run draws one entry point of the configuration's family, a valid encoding produced by the real encoder (serix Encode of a zoo value / Write* helpers / Serializer chain / JSONEncode), and ONE fault class, then enumerates that class on that encoding: truncate = every proper prefix; structural-flip = every byte of every length prefix, element count, type code, optional marker and bool (positions known from the reference encoder's layout marks) x 5 variants (^01 ^80 =ff =00 +1); inflated-prefix = every length/count/optional prefix x (0xff,0x80 | 0xffff,0x8000,0x100 | 2^17,2^20 | for 8-byte prefixes also 2^63, 2^64-1, 2^63-1; 2^31 or 2^32-1 on one prefix in 1 of 400 such runs); transport-error (stream family) = reader fails at every offset 0..len; data-flip = 24 sampled 1-3 byte flips; splice = 16 sampled region duplications / drops / overwrites; JSON: wrong-json-type = every value site of the document x 19 replacement values (null, bool, number, negative, fraction, 1e40, string, 1-character strings, empty string, hex string, bare and odd hex prefixes, numeric string, 26-digit numeric string, array, empty array, object, empty object), array-resized = every array one longer / one shorter / doubled, key-dropped = every member, key-duplicated = every top-level key x 14 values (text level), truncate = every prefix of the text, data-flip sampled. Each enumeration starts at a decision-chosen rotation (positions, variants, values), because a run ends at its first violation. Oracle per call, under recover: returns a value or an error (no panic); reported consumed bytes <= len(input); every call with an inflated prefix and every 8th other call is measured: runtime.MemStats.TotalAlloc delta <= 64*len(input)+64KiB (single task, nothing else allocates) and process CPU time <= 3 s (iteration bound). distinct = distinct (entry point, encoding, fault class, outcome summary) hash; all runs non-trivial",
+		Rule:  "inputs are faulted stored data: each run draws one entry point of the configuration's family, a valid encoding produced by the real encoder (serix Encode of a zoo value / Write* helpers / Serializer chain / JSONEncode), and ONE fault class, then enumerates that class on that encoding: truncate = every proper prefix; structural-flip = every byte of every length prefix, element count, type code, optional marker and bool (positions known from the reference encoder's layout marks) x 5 variants (^01 ^80 =ff =00 +1); inflated-prefix = every length/count/optional prefix x (0xff,0x80 | 0xffff,0x8000,0x100 | 2^17,2^20 | for 8-byte prefixes also 2^63, 2^64-1, 2^63-1; 2^31 or 2^32-1 on one prefix in 1 of 400 such runs); transport-error (stream family) = reader fails at every offset 0..len; data-flip = 24 sampled 1-3 byte flips; splice = 16 sampled region duplications / drops / overwrites; JSON: wrong-json-type = every value site of the document x 19 replacement values (null, bool, number, negative, fraction, 1e40, string, 1-character strings, empty string, hex string, bare and odd hex prefixes, numeric string, 26-digit numeric string, array, empty array, object, empty object), array-resized = every array one longer / one shorter / doubled, key-dropped = every member, key-duplicated = every top-level key x 14 values (text level), truncate = every prefix of the text, data-flip sampled. Each enumeration starts at a decision-chosen rotation (positions, variants, values), because a run ends at its first violation. Oracle per call, under recover: returns a value or an error (no panic); reported consumed bytes <= len(input); every call with an inflated prefix and every 8th other call is measured: runtime.MemStats.TotalAlloc delta <= 64*len(input)+64KiB (single task, nothing else allocates) and process CPU time <= 3 s (iteration bound). distinct = distinct (entry point, encoding, fault class, outcome summary) hash; all runs non-trivial",
 		Real:  []string{"serializer/serix Decode/MapDecode/JSONDecode", "serializer.Deserializer and Serializer", "serializer/stream read helpers", "ds/serializableorderedmap", "encoding/json (real)"},
 		Stubs: append([]string{"storage / transport under the decoders (fault injector over valid encodings; simio reader with truncation and injected errors)"}, commonStubs...),
 		Assume: []string{
